@@ -29,6 +29,7 @@ class T(param.Parameterized):
     r = param.Integer(default=1, readonly=True)
     e = param.Event()
     cr = param.Integer(default=1, constant=True, allow_refs=True)
+    cs = param.Selector(objects=[1, 2], default=1, check_on_set=False, constant=True)
 
 
 def _wtable(o):
@@ -62,7 +63,8 @@ def prog(k: int, p1: int, pv1: int, p2: int, pv2: int, rk: int, kind: int, route
     rk = pick(rk, 0, 2)
     s0.v = s0v
     log = []
-    t.param.watch(lambda *e: log.append([(x.name, x.new) for x in e]), ['x', 'y', 'c', 'r', 'e', 'cr'], onlychanged=False)
+    t.param.watch(lambda *e: log.append([(x.name, x.new) for x in e]), ['x', 'y', 'c', 'r', 'e', 'cr', 'cs'], onlychanged=False)
+    t.param.watch(lambda *e: log.append([('objects', x.name) for x in e]), ['cs'], what='objects', onlychanged=False)
     if ctx == 1:
         # the whole history, the rejected attempt and the probes run inside an open batch: the events queued by the
         # history must stay queued (no watcher runs, the queue length is part of the snapshot)
@@ -86,7 +88,7 @@ def _body(t, s0, s1, log, clsx, k, p1, pv1, p2, pv2, rk, kind, route, bad, after
                 linked = s0
             elif po == 3:
                 t.param.update(y=pvv)
-        kind = pick(kind, 0, 5)
+        kind = pick(kind, 0, 6)
         route = pick(route, 0, 3)
         cover('C02.kind.%d' % kind)
         s1.v = bad if kind == 1 else 5
@@ -101,6 +103,8 @@ def _body(t, s0, s1, log, clsx, k, p1, pv1, p2, pv2, rk, kind, route, bad, after
             val, name = 5, 'c'                # constant violation
         elif kind == 3:
             val, name = 5, 'r'                # readonly violation
+        elif kind == 6:
+            val, name = 5, 'cs'               # a new object for a constant Selector that would adopt it (check_on_set=False)
         elif kind == 5:
             val, name = newref, 'cr'          # reference (current value valid, different from the held one) handed to a constant
         else:
@@ -257,7 +261,7 @@ def dyn(level: int, tgt: int, valk: int, tm: int, bad: int) -> None:
 dyn.ranges = lambda consts: dict(level=(0, 1), tgt=(0, 2), valk=(0, 2), tm=(0, 2))
 
 
-prog.ranges = lambda consts: dict(p1=(0, 3), p2=(0, 3), pv1=(0, 10), pv2=(0, 10), rk=(0, 2), kind=(0, 5), route=(0, 3),
+prog.ranges = lambda consts: dict(p1=(0, 3), p2=(0, 3), pv1=(0, 10), pv2=(0, 10), rk=(0, 2), kind=(0, 6), route=(0, 3),
                                   s0v=(0, 10), after0=(0, 10), ctx=(0, 1))
 
 
@@ -265,7 +269,7 @@ def shards(tier):
     out = []
     q = tier == 'quick'
     k = 2
-    for kind in range(6):
+    for kind in range(7):
         for route in range(4):
             if route == 2 and kind not in (0, 3, 4):
                 continue
@@ -284,6 +288,6 @@ def shards(tier):
 
 def bounds(tier):
     return dict(prefix_ops=2, prefix_opcodes=['nothing', 'plain set', 'link x to a source', 'update(y)'],
-                reject_kinds=['invalid plain value on x', 'reference with invalid current value', 'constant', 'readonly', 'invalid plain value on y', 'reference handed to a constant allow_refs parameter'],
+                reject_kinds=['invalid plain value on x', 'reference with invalid current value', 'constant', 'readonly', 'invalid plain value on y', 'reference handed to a constant allow_refs parameter', 'new object for a constant Selector with check_on_set=False'],
                 routes=['instance', 'single-key update', 'class', 'update with the rejected key first and an Event key after it'],
                 contexts=['no batch', 'history, attempt and probes inside batch_call_watchers'], reference_kinds=['Parameter', 'bind', 'rx'])
